@@ -263,6 +263,11 @@ impl Property for C10 {
         sc.world.v6 = v6;
         // answers always arrive well inside every query lifetime (0.5 s): one-way latency <= 200 ms
         sc.net = swarm_net(&mut rng, &[0, 5, 50, 200], false);
+        // in one run of three some of the node's REPLIES fail to send (its own queries never do): a
+        // query from a known contact counts whether or not the answer could be sent
+        if rng.chance(1, 3) {
+            sc.net.reply_send_err_ppm = *rng.pick(&[100_000u32, 500_000, 1_000_000]);
+        }
         sc.net.check_table_shape = true;
         let mut real = default_real(v6, 0, &mut rng);
         real.read_only = rng.chance(1, 3);
@@ -446,17 +451,20 @@ impl Property for C10 {
         for (k, n) in reach {
             v.hit_n(k, n);
         }
+        if run.stats.get("fault_reply_send_err").copied().unwrap_or(0) > 0 {
+            v.hit("reply_failed_to_send");
+        }
         v.nontrivial = samples > 10 && v.reach.contains_key("sample_good");
         v.sample = json!({"stubs": sc.world.stubs.len(), "read_only": ro, "minutes": sc.param("minutes"), "samples": samples, "reach": v.reach});
         v
     }
     fn rule(&self) -> &'static str {
-        "one real node (serving or read-only) with 1..8 stub contacts over 20..180 virtual minutes; each contact answers always / never / until t / from t / in windows whose on and off times are biased to 15 min +- {1 ms, 1 s, 1 min}, names a drawn subset of the others, and may send the node queries at gaps biased to the 15-minute edge; impostors send queries carrying a contact's id from another address; optional searches; load_contacts sampled every 3.7..11.9 s and a find_node probe every 61 s. A reference model of the statement (last accepted answer, last query while known, consecutive unanswered queries while not good, re-admission by hearsay) is fed from the wire tap and compared with every sample. non-trivial = more than 10 samples with at least one definitely-good contact; distinct = distinct order digests"
+        "one real node (serving or read-only) with 1..8 stub contacts over 20..180 virtual minutes; each contact answers always / never / until t / from t / in windows whose on and off times are biased to 15 min +- {1 ms, 1 s, 1 min}, names a drawn subset of the others, and may send the node queries at gaps biased to the 15-minute edge; impostors send queries carrying a contact's id from another address; optional searches; in 1 run of 3 10..100 % of the replies the node sends fail to send (its queries never do); load_contacts sampled every 3.7..11.9 s and a find_node probe every 61 s. A reference model of the statement (last accepted answer, last query while known, consecutive unanswered queries while not good, re-admission by hearsay) is fed from the wire tap and compared with every sample. non-trivial = more than 10 samples with at least one definitely-good contact; distinct = distinct order digests"
     }
     fn assumptions(&self) -> Vec<&'static str> {
         vec!["one-way latency <= 200 ms so that every answer falls inside the 0.5 s lifetime of the query it answers", "a contact touched by an event within 2 ms of a sample is not judged at that sample; predicates must hold at t-1, t and t+1 ms", "a bad contact named again by another node is re-admitted as questionable (DESIGN.md, C10 interpretation)"]
     }
     fn required_reach(&self) -> Vec<&'static str> {
-        vec!["sample_good", "sample_questionable", "sample_bad", "hearsay_only_contact", "good_by_query_only"]
+        vec!["sample_good", "sample_questionable", "sample_bad", "hearsay_only_contact", "good_by_query_only", "reply_failed_to_send"]
     }
 }
